@@ -592,41 +592,36 @@ fn wild_orig(j: &J) -> J {
     }
 }
 
-/// Equality of two encoded structures (Sig_structure etc.) where protected slots that were built in
-/// memory are compared by content (deterministic CBOR, same entries), not by entry order.
+/// Canonical form of an item for comparison "modulo the entry order the encoder chose": every map is
+/// compared as a multiset of entries, and a byte string that holds exactly one map (a protected header)
+/// is compared by that map's content.
+fn norm_deep(j: &J) -> J {
+    match j["t"].as_str() {
+        Some("map") => {
+            let mut es: Vec<J> = j["m"].as_array().map(|a| a.iter().map(|p| json!([norm_deep(&p[0]), norm_deep(&p[1])])).collect()).unwrap_or_default();
+            es.sort_by_key(|x| x.to_string());
+            json!({"t": "map", "m": es})
+        }
+        Some("array") => json!({"t": "array", "a": j["a"].as_array().map(|a| a.iter().map(norm_deep).collect::<Vec<_>>()).unwrap_or_default()}),
+        Some("tag") => json!({"t": "tag", "tag": j["tag"], "x": norm_deep(&j["x"])}),
+        Some("bytes") => match bytes_of(&j["b"]).ok().and_then(|b| if b.is_empty() { None } else { reader::read_all(&b).ok() }) {
+            Some(inner) if inner["t"] == "map" => json!({"t": "bytes-holding-map", "m": norm_deep(&inner)}),
+            _ => j.clone(),
+        },
+        _ => j.clone(),
+    }
+}
+
+/// Equality of two encodings where protected headers built in memory are compared by content
+/// (deterministic CBOR, same entries), not by the entry order the encoder happened to choose.
 fn struct_equiv(want: &[u8], got: &[u8]) -> bool {
     if want == got {
         return true;
     }
-    let (w, g) = match (reader::read_all(want), reader::read_all(got)) {
-        (Ok(w), Ok(g)) => (w, g),
-        _ => return false,
-    };
-    let (wa, ga) = match (w["a"].as_array(), g["a"].as_array()) {
-        (Some(a), Some(b)) if a.len() == b.len() => (a, b),
-        _ => return false,
-    };
-    let nslots = if wa.len() == 5 { 2 } else { 1 };
-    for i in 0..wa.len() {
-        if wa[i] == ga[i] {
-            continue;
-        }
-        if i >= 1 && i <= nslots && wa[i]["t"] == "bytes" && ga[i]["t"] == "bytes" {
-            let wi = bytes_of(&wa[i]["b"]).ok().and_then(|b| reader::read_all(&b).ok());
-            let gi = bytes_of(&ga[i]["b"]).ok().and_then(|b| reader::read_all(&b).ok());
-            match (wi, gi) {
-                (Some(x), Some(y)) if x["t"] == "map" && y["t"] == "map" => {
-                    if same_entries(x["m"].as_array().unwrap(), y["m"].as_array().unwrap()) {
-                        continue;
-                    }
-                    return false;
-                }
-                _ => return false,
-            }
-        }
-        return false;
+    match (reader::read_all(want), reader::read_all(got)) {
+        (Ok(w), Ok(g)) => norm_deep(&w) == norm_deep(&g),
+        _ => false,
     }
-    true
 }
 
 fn bytes_list_equiv(want: &J, got: &J, slotfree: bool) -> bool {
